@@ -1,5 +1,7 @@
 import PhyloModel.Dist.Keys
 import PhyloModel.Dist.Fold
+import PhyloModel.Dist.FoldRose
+import PhyloModel.Dist.FoldRoseExamples
 /-! # C08 — both distance-matrix algorithms return the true leaf-to-leaf path lengths
 
 `DM.pathLen t x y` is the textbook path length between leaves `x` and `y` (descend to the deepest node
@@ -9,10 +11,15 @@ rose tree (per-node caches `DM.cache`).  The theorems show that every unordered 
 contribution and that it is the path length — the mathematical core of the fast algorithm, for every tree
 shape (polytomies, unary nodes, any root style) and every assignment of lengths.
 
-`dm_fast_correct` is therefore PARTIAL: the executable arena fold `DMF.dmFast` (reversed level order,
-per-slot caches, keyed accumulation into the triangular vector — what the driver runs against the crate) is
-tied to this recursion by executing BOTH on every correspondence case and comparing each with the crate for
-exact equality, not yet by a kernel-checked loop-invariant proof. -/
+The link to the EXECUTABLE arena fold `DMF.dmFast` (reversed level order of the arena, per-slot caches, keyed
+accumulation into the triangular vector — what the driver runs against the crate) is a kernel-checked
+loop-invariant proof (second half of this file; `Dist/BottomUp`, `FoldW`, `CSum`, `FoldStep`, `FoldPerm`, `FoldInv`,
+`FoldCorrect`, `FoldRose`): under the arena invariant every cell `dmFast` returns IS the path length between the two
+taxa of the cell in the tree the arena represents (`dm_fast_correct`; forests: `dm_fast_correct_forest`), the fold never
+reaches a panic / `unwrap` / missing-cache outcome (`dm_fast_total`), and it equals the rose-level computation
+`dmRose` whenever the tips have pairwise different names (`dm_fast_eq_rose`; with a repeated tip name the two break the
+tie of the taxon order differently — kernel-checked counterexample `DMF.dmFast_d4` / `DMF.dmRose_d4` — which is outside
+C08's domain of uniquely named leaves). -/
 namespace C08
 open DM
 
@@ -52,5 +59,52 @@ theorem path_length_needs_leaves (t : RT) (x : Nat) (h : x ∉ leafIds t) : dept
 /-- non-vacuity: the tree ((1,2)4,3)0 has duplicate-free leaves and three leaf pairs -/
 example : leafIds (.node 0 0 [.node 4 1 [.node 1 2 [], .node 2 3 []], .node 3 4 []]) = [1, 2, 3] ∧
     allPairs [1, 2, 3] = [(1, 2), (1, 3), (2, 3)] := by decide
+
+/-! ## the executable arena fold -/
+open AR DMF
+
+
+theorem dm_fast_correct (a : Arena) (unit : Int) (hinv : Inv a) (h1 : AtMostOneRoot a) (names : List String)
+    (cells : List Int) (h : dmFast a unit = .ok (names, cells)) :
+    ∃ t, absRoot a = .ok t ∧
+      names = (leafOrder a).map (fun l => ((nd a l).name).getD "") ∧
+      (∀ l ∈ leafOrder a, (nd a l).name.isSome) ∧
+      cells.length = Tri.T (leafOrder a).length ∧
+      (DM.leafIds (absDM unit t)).Nodup ∧
+      (∀ x, x ∈ DM.leafIds (absDM unit t) ↔ x ∈ leafOrder a) ∧
+      ∀ (i j : Nat) (_ : j < i) (hi : i < (leafOrder a).length),
+        DM.pathLen (absDM unit t) (leafOrder a)[i] (leafOrder a)[j]
+          = some (((cells.getD (MX.cell i j) 0 : Int)) : Rat) :=
+  dmFast_correct a unit hinv h1 names cells h
+
+theorem dm_fast_correct_forest (a : Arena) (unit : Int) (hinv : Inv a) (names : List String) (cells : List Int)
+    (h : dmFast a unit = .ok (names, cells)) :
+    ∃ t, absRoot a = .ok t ∧
+      names = (leafOrder a).map (fun l => ((nd a l).name).getD "") ∧
+      (∀ l ∈ leafOrder a, (nd a l).name.isSome) ∧
+      cells.length = Tri.T (leafOrder a).length ∧
+      (DM.leafIds (absDM unit t)).Nodup ∧
+      (∀ x, x ∈ DM.leafIds (absDM unit t) → x ∈ leafOrder a) ∧
+      ∀ (i j : Nat) (_ : j < i) (hi : i < (leafOrder a).length),
+        ((leafOrder a)[i] ∈ DM.leafIds (absDM unit t) ∧ (leafOrder a)[j] ∈ DM.leafIds (absDM unit t) →
+          DM.pathLen (absDM unit t) (leafOrder a)[i] (leafOrder a)[j]
+            = some (((cells.getD (MX.cell i j) 0 : Int)) : Rat)) ∧
+        (¬ ((leafOrder a)[i] ∈ DM.leafIds (absDM unit t) ∧ (leafOrder a)[j] ∈ DM.leafIds (absDM unit t)) →
+          cells.getD (MX.cell i j) 0 = 0) :=
+  dmFast_correct_forest a unit hinv names cells h
+
+theorem dm_fast_total (a : Arena) (unit : Int) (hinv : Inv a) :
+    (dmFast a unit = .err "UnnamedLeaves" ∧ ∃ l ∈ leaves a, (nd a l).name = none) ∨
+    (dmFast a unit = .err "RootNotFound" ∧ getRoot a = none ∧ ∀ i, ¬ live a i) ∨
+    (∃ names cells, dmFast a unit = .ok (names, cells)) :=
+  dmFast_total a unit hinv
+
+theorem dm_fast_eq_rose (a : Arena) (unit : Int) (hinv : Inv a) (h1 : AtMostOneRoot a)
+    (hdist : ∀ x ∈ leaves a, ∀ y ∈ leaves a, (nd a x).name = (nd a y).name → x = y) :
+    dmFast a unit = dmRose a unit :=
+  dmFast_eq_dmRose a unit hinv h1 hdist
+
+/-- every state reachable by the model's operations satisfies the hypotheses used above -/
+example (a : Arena) (g : Good a) : Inv a := g.1
 
 end C08
